@@ -30,7 +30,7 @@ ASSUMPTIONS = [
     "payload domain as stated in C01: no str.splitlines terminator, no trailing whitespace",
 ]
 
-DELETABLE = ("warmup",)
+DELETABLE = ("warmup", "warm_mut")
 ENDINGS = ("\n", "", "\r\n", " \n", "  ")
 
 
@@ -40,14 +40,36 @@ def budgets(tier: str) -> dict:
     return {"examples": 200000, "shards": 16}
 
 
+WARM_TEXT = ("x", "", "999", "-1", "256", "5", " ", "1.5", "\x7f", "3;3")
+
+
+def warm_lines(msg: list, muts: list) -> list[str]:
+    """Lines a long-lived schema saw earlier that look like the message: one field replaced, or cut short."""
+    out = []
+    for pos, text in muts:
+        fields = [str(x) for x in msg[:5]] + [msg[5]]
+        if pos == "cut":
+            fields = fields[: int(text)]
+        else:
+            fields[pos] = text
+        out.append(";".join(fields) + "\n")
+    return out
+
+
 def strategy(tier: str):
+    mut = st.one_of(
+        st.tuples(st.integers(0, 5), st.sampled_from(WARM_TEXT)).map(list),
+        st.tuples(st.just("cut"), st.sampled_from(("0", "1", "3", "4", "5"))).map(list),
+    )
     return st.fixed_dictionaries(
         {
             "version": gen.versions,
             "msg": gen.wellformed_message(),
             "ending": st.sampled_from(ENDINGS),
             "warmup": st.one_of(st.just([]), st.lists(gen.wellformed_message().map(gen.line_of), max_size=3)),
+            "warm_mut": st.one_of(st.just([]), st.lists(mut, min_size=1, max_size=3)),
             "debug_log": st.sampled_from((False, False, True)),
+            "ctx": st.sampled_from(("same", "same", "copied", "thread")),
         }
     )
 
@@ -59,6 +81,15 @@ def enumerate_cases(tier: str):
         for warm in ("1;1;1;0;2;1\n", "1;1;2;0;2;\n", "1;1;0;0;3;relay\n", "1;255;3;0;0;55\n", "1;255;0;0;17;2.0\n", "1;255;4;0;0;ff\n"):
             for msg in ([1, 5, 3, 0, 3, ""], [255, 0, 3, 1, 4, "7"], [1, 255, 3, 0, 3, ""], [9, 254, 1, 0, 2, "a;b"], [9, 255, 0, 0, 17, "2.2.0"], [3, 255, 4, 0, 1, "ff"], [3, 1, 2, 1, 0, ""]):
                 yield {"version": version, "msg": msg, "ending": "\n", "warmup": [warm, warm]}
+        # a reused schema that rejected a look-alike of the message just before (every field, every rejection class)
+        for msg in ([1, 0, 1, 0, 2, "20.5"], [3, 5, 3, 0, 3, ""], [3, 255, 3, 0, 9, "log;x"], [7, 255, 0, 1, 17, "2.2"], [9, 255, 4, 0, 1, "ff"], [2, 4, 2, 0, 0, ""]):
+            for pos in range(5):
+                for text in WARM_TEXT:
+                    yield {"version": version, "msg": msg, "ending": "\n", "warmup": [], "warm_mut": [[pos, text]]}
+            for cut in ("0", "1", "3", "4", "5"):
+                yield {"version": version, "msg": msg, "ending": "\n", "warmup": [], "warm_mut": [["cut", cut]]}
+            for ctx in env.CTX_MODES:
+                yield {"version": version, "msg": msg, "ending": "\n", "warmup": [], "ctx": ctx}
         for size in (51, 200, 65530, 65537, 70000, 200000):
             for debug in (False, True):
                 yield {"version": version, "msg": [12, 3, 1, 1, 47, "p" * size], "ending": "\n", "warmup": [], "debug_log": debug}
@@ -100,9 +131,19 @@ def _run_case(case: dict) -> Outcome:
     nontrivial = _nontrivial(msg)
     classes = _classes(msg)
     pclass = "delim" if ";" in payload else "plain"
-    schema = MessageSchema()
-    schema.set_protocol(get_protocol(version))
-    for warm in case.get("warmup", ()):
+    ctx = case.get("ctx")
+
+    def build_schema() -> MessageSchema:
+        made = MessageSchema()
+        made.set_protocol(get_protocol(version))
+        return made
+
+    schema = env.in_ctx(ctx, build_schema)  # built in one task/thread, used in another
+    if ctx not in (None, "same"):
+        classes += (f"ctx={ctx}",)
+    if case.get("warm_mut"):
+        classes += ("warm-lookalike",)
+    for warm in list(case.get("warmup", ())) + warm_lines(msg, case.get("warm_mut", ())):
         # a long-lived schema (the gateway keeps one for its whole life) must not remember what it decoded
         try:
             schema.load(warm)
@@ -151,7 +192,10 @@ def _run_case(case: dict) -> Outcome:
 
     # (C) the same through the gateway
     async def through_gateway() -> Outcome | None:
-        gateway, transport = env.make_gateway(version)
+        gateway, transport = env.make_gateway(version, ctx=ctx)
+        for warm in warm_lines(msg, case.get("warm_mut", ())):
+            await env.rx(gateway, warm)
+        transport.writes.clear()
         if command == 1:
             status, err = await env.send(gateway, Message(node, child, command, ack, mtype, payload))
             if status != "ok":
